@@ -83,7 +83,7 @@ Proof.
   - (* link: a reported value <= alpha forces the exact product >= 1/alpha *)
     intros a xs h Ha' Ha1' Hne Hxr Hin Hle.
     assert (Hx0 : Forall (fun x => 0 <= x) xs) by (eapply Forall_impl; [|exact Hxr]; intros x Hx; cbv beta in *; lra).
-    unfold kaplan_wald in Hin. cbv zeta in Hin. cbn [fst snd] in Hin.
+    unfold kaplan_wald in Hin. cbv zeta in Hin. cbn [fst snd] in Hin. rewrite kw_absorb_id in Hin.
     pose proof (kw_hist_is g t xs (iinit (const_machine 0))) as EH. cbn [iinit i_T] in EH. rewrite EH in Hin.
     set (Ts := iTs (kw_fac g t) t (iinit (const_machine 0)) xs) in *.
     assert (Hnn : Forall (fun T => 0 <= T) Ts).
@@ -154,6 +154,7 @@ Proof.
   - intros a xs h Ha' Ha1' Hne Hxr Hin Hle.
     assert (Hxg : Forall (fun x => 0 <= x + g) xs) by (eapply Forall_impl; [|exact Hxr]; intros x Hx; cbv beta in *; lra).
     unfold kaplan_markov in Hin. cbv zeta in Hin. cbn [fst snd] in Hin.
+    rewrite (km_absorb_id g t xs) in Hin by (auto; lra).
     set (hist := xcumprod (Fin 1) (map (fun x => xdiv (Fin (t + g)) (Fin (x + g))) xs)) in *.
     assert (Hinv : Forall2 km_inv hist (iTs (km_fac g t) t (iinit (const_machine 0)) xs)).
     { apply km_hist_inv; auto; [lra|]. right. exists 1. cbn. repeat split; lra. }
